@@ -387,6 +387,114 @@ theorem lookup_of_forall (l : List (Nat × α)) (a : Nat) (b : α)
         · exact absurd hqa.symm hp
         · exact ⟨q, hq, hqa⟩
 
+/-! ### statement skeleton -/
+
+theorem skeleton_out_raw (t rest : Str) (h : ∀ c ∈ t, isQuote c = false) :
+    skeleton .out (t ++ rest) = (skeleton .out rest).map (t.map Skel.ch ++ ·) := by
+  induction t with
+  | nil => simp
+  | cons c t ih =>
+    have hc : isQuote c = false := h c (by simp)
+    have ih' := ih (fun d hd => h d (by simp [hd]))
+    simp only [List.cons_append, skeleton, hc, ih', List.map_cons]
+    cases skeleton .out rest <;> simp
+
+/-- from inside a token opened by `q`, the doubled body followed by the closing `q` leaves the lexer in `endq q` -/
+theorem skeleton_inq_body (q : Char) (n rest : Str) :
+    skeleton (.inq q) (replaceChar q [q, q] n ++ q :: rest) = skeleton (.endq q) rest := by
+  induction n with
+  | nil => simp [replaceChar, skeleton]
+  | cons c n ih =>
+    by_cases hc : c = q
+    · subst hc; simp [replaceChar, skeleton, ih]
+    · simp [replaceChar, skeleton, hc, ih]
+
+theorem skeleton_out_quoted (q : Char) (hq : isQuote q = true) (n rest : Str) :
+    skeleton .out (quoteNameL q n ++ rest) = skeleton (.endq q) rest := by
+  simp [quoteNameL, skeleton, hq, skeleton_inq_body]
+
+theorem skeleton_endq_quoted (p q : Char) (hq : isQuote q = true) (hpq : q ≠ p) (n rest : Str) :
+    skeleton (.endq p) (quoteNameL q n ++ rest) = (skeleton (.endq q) rest).map (Skel.quoted p :: ·) := by
+  simp [quoteNameL, skeleton, hq, hpq, skeleton_inq_body]
+
+theorem skeleton_endq_raw (p : Char) (hp : isQuote p = true) (c : Char) (t rest : Str) (h : ∀ d ∈ c :: t, isQuote d = false) :
+    skeleton (.endq p) (c :: t ++ rest) = (skeleton .out rest).map (fun r => Skel.quoted p :: (c :: t).map Skel.ch ++ r) := by
+  have hc : isQuote c = false := h c (by simp)
+  have hcp : c ≠ p := by intro e; rw [e, hp] at hc; exact absurd hc (by simp)
+  have ht := skeleton_out_raw t rest (fun d hd => h d (by simp [hd]))
+  simp only [List.cons_append, skeleton, hcp, hc, if_false, ht]
+  cases skeleton .out rest <;> simp
+
+def stateOf : Option Char → QState
+  | none => .out
+  | some q => .endq q
+
+def pending : Option Char → List Skel
+  | none => []
+  | some q => [Skel.quoted q]
+
+theorem stdQuote_eq_quoteName (s : Str) : stdQuote s = quoteNameL '\'' s := rfl
+
+/-- the skeleton of a well-formed piece sequence is the sequence of piece skeletons, from either lexer state -/
+theorem skeleton_pieces (ps : List Piece) (prev : Option Char) (hprev : ∀ q, prev = some q → isQuote q = true)
+    (h : WFPieces prev ps) :
+    skeleton (stateOf prev) (renderPieces ps) = some (pending prev ++ skelPieces ps) := by
+  induction ps generalizing prev with
+  | nil => cases prev <;> simp [renderPieces, skelPieces, stateOf, pending, skeleton]
+  | cons p ps ih =>
+    cases p with
+    | raw t =>
+      obtain ⟨ht, hr⟩ := h
+      cases t with
+      | nil =>
+        simp only [if_true] at hr
+        simpa [renderPieces, Piece.render, skelPieces, Piece.skel] using ih prev hprev hr
+      | cons c t =>
+        have hr' : WFPieces none ps := by simpa using hr
+        have ih' := ih none (by simp) hr'
+        simp only [stateOf, pending, List.nil_append] at ih'
+        cases prev with
+        | none =>
+          simp only [renderPieces, Piece.render, stateOf, pending, skelPieces, Piece.skel, List.nil_append]
+          rw [skeleton_out_raw (c :: t) _ ht, ih']; simp
+        | some q =>
+          simp only [renderPieces, Piece.render, stateOf, pending, skelPieces, Piece.skel]
+          rw [skeleton_endq_raw q (hprev q rfl) c t _ ht, ih']; simp
+    | lit s =>
+      obtain ⟨hne, hr⟩ := h
+      have ih' := ih (some '\'') (by intro q hq; cases hq; decide) hr
+      simp only [stateOf, pending] at ih'
+      cases prev with
+      | none =>
+        simp only [renderPieces, Piece.render, stateOf, pending, skelPieces, Piece.skel, List.nil_append, stdQuote_eq_quoteName]
+        rw [skeleton_out_quoted _ (by decide), ih']
+      | some q =>
+        have hq : '\'' ≠ q := fun e => hne (by rw [e])
+        simp only [renderPieces, Piece.render, stateOf, pending, skelPieces, Piece.skel, stdQuote_eq_quoteName]
+        rw [skeleton_endq_quoted q _ (by decide) hq, ih']; simp
+    | ident q n =>
+      obtain ⟨hq, hne, hr⟩ := h
+      have ih' := ih (some q) (by intro q' hq'; cases hq'; exact hq) hr
+      simp only [stateOf, pending] at ih'
+      cases prev with
+      | none =>
+        simp only [renderPieces, Piece.render, stateOf, pending, skelPieces, Piece.skel, List.nil_append]
+        rw [skeleton_out_quoted _ hq, ih']
+      | some p =>
+        have hpq : q ≠ p := fun e => hne (by rw [e])
+        simp only [renderPieces, Piece.render, stateOf, pending, skelPieces, Piece.skel]
+        rw [skeleton_endq_quoted p _ hq hpq, ih']; simp
+
+theorem WFPieces_shape (ps : List Piece) (prev : Option Char) : WFPieces prev (ps.map Piece.shape) ↔ WFPieces prev ps := by
+  induction ps generalizing prev with
+  | nil => simp [WFPieces]
+  | cons p ps ih => cases p <;> simp [WFPieces, Piece.shape, ih]
+
+theorem skelPieces_shape (ps : List Piece) : skelPieces (ps.map Piece.shape) = skelPieces ps := by
+  induction ps with
+  | nil => rfl
+  | cons p ps ih => cases p <;> simp [skelPieces, Piece.shape, Piece.skel, ih]
+
 /-! ### hexadecimal blobs -/
 
 theorem unhex_hex (n : Nat) (h : n < 16) : unhexDigit (hexDigit n) = some n := by
